@@ -1608,7 +1608,16 @@ fn canon_line(s: &str, names: &[String]) -> Option<String> {
         name = format!("{}/$", segs[..cut].join("."));
         parent = "-".into();
     }
-    let mut imps: Vec<&str> = parts[2].split(',').filter(|x| !x.is_empty()).collect();
+    // an import may target a local of an enclosing block: same naming for that scope
+    let mut imps: Vec<String> = parts[2].split(',').filter(|x| !x.is_empty()).map(|x| {
+        if !x.contains('$') {
+            return x.to_string();
+        }
+        let (alias, target) = x.split_once('>').unwrap_or((x, ""));
+        let segs: Vec<&str> = target.split('.').collect();
+        let cut = segs.iter().position(|y| y.starts_with('$')).unwrap_or(segs.len());
+        format!("{alias}>{}/$.{}", segs[..cut].join("."), segs.last().unwrap_or(&""))
+    }).collect();
     imps.sort();
     let mut decls: Vec<&str> = parts[3].split(',').filter(|x| !x.is_empty()).filter(|x| {
         let id = x.split(':').next().unwrap_or("");
@@ -1807,7 +1816,7 @@ fn main() {
         Some("run") => {
             let seed: u64 = args[2].parse().expect("seed");
             let tier = args.get(3).map(|s| s.as_str()).unwrap_or("quick");
-            let total: u64 = if tier == "thorough" { 6000 } else { 240 };
+            let total: u64 = match tier { "thorough" => 6000, "search" => 1200, _ => 240 };
             let mut rep = Report::default();
             let seed_s = seed.to_string();
             worker::run_batches(&[&seed_s, tier], total, 60, Duration::from_secs(900), &mut rep, |rep, last, ended| {
